@@ -504,9 +504,12 @@ def plan_C14(ctx):
     exe = vbuild.spline_replay()
     r = gen.Rng(ctx.seed * 1000003 + 14)
     execs = []
+    kk = 0
 
-    def obj_cmds(oid, pr):
-        return [gen.build_cmd(oid, pr, "ctor_durs", 6), {"op": "energy", "obj": oid}, {"op": "egrad", "obj": oid}]
+    HOWS = ("ctor_durs", "ctor_pts", "upd_durs", "upd_pts")
+
+    def obj_cmds(oid, pr, how="ctor_durs"):
+        return [gen.build_cmd(oid, pr, how, 6), {"op": "energy", "obj": oid}, {"op": "egrad", "obj": oid}]
     for rep in range(1 if ctx.quick() else 20):
         for order in gen.ORDERS:
             for n in (1, 2, 3, 4):
@@ -514,39 +517,44 @@ def plan_C14(ctx):
                     small = (order + 1) * n <= 16
                     pr = r.problem(order, dim, n, dcls=r.choice(["grid", "real"]), dyadic=None if small else True)
                     gm = math.exp(sum(math.log(t) for t in pr["T"]) / n)
-                    cmds = [{"op": "reset"}] + obj_cmds(1, pr)
+                    kk += 1
+                    # every object through one of the four construction / update overloads.  Bit identity under a time shift needs bit-identical
+                    # durations: with the time-point overloads that holds when all time points are exact (dyadic problem, dyadic shift)
+                    dyadic = all(float(t * 16).is_integer() for t in pr["T"]) and float(pr["t0"] * 16).is_integer() and abs(pr["t0"]) < 1e5
+                    hb = HOWS[kk % 4] if dyadic else HOWS[(kk % 2) * 2]
+                    cmds = [{"op": "reset"}] + obj_cmds(1, pr, hb)
                     # shift
-                    dt = r.choice([1.5, -2.25, 1e6, 0.1])
+                    dt = r.choice([1.5, -2.25, 1e6, 0.1]) if not dyadic else r.choice([1.5, -2.25, 4096.0, 0.125])
                     q = dict(pr); q["t0"] = pr["t0"] + dt
                     dt = q["t0"] - pr["t0"]
-                    cmds += obj_cmds(2, q) + [{"op": "note", "what": "xform", "kind": "shift", "a": 1, "b": 2, "dt": gen.hx(dt)}]
+                    cmds += obj_cmds(2, q, HOWS[(kk + 1) % 4] if dyadic else HOWS[((kk + 1) % 2) * 2]) + [{"op": "note", "what": "xform", "kind": "shift", "a": 1, "b": 2, "dt": gen.hx(dt)}]
                     # translate
                     v = [r.choice([r.dyadic(-8, 8, 8), r.uniform(-100, 100)]) for _ in range(dim)]
                     q = dict(pr); q["P"] = [[x + v[c] for c, x in enumerate(row)] for row in pr["P"]]
                     v_eff = [q["P"][0][c] - pr["P"][0][c] for c in range(dim)]
-                    cmds += obj_cmds(3, q) + [{"op": "note", "what": "xform", "kind": "translate", "a": 1, "b": 3, "v": gen.hv(v_eff)}]
+                    cmds += obj_cmds(3, q, HOWS[(kk + 2) % 4]) + [{"op": "note", "what": "xform", "kind": "translate", "a": 1, "b": 3, "v": gen.hv(v_eff)}]
                     # scale space
                     f = r.choice([2.0, 0.25, 3.0, 1.0 / 3.0, -1.0])
                     q = dict(pr); q["P"] = [[x * f for x in row] for row in pr["P"]]; q["bc"] = {k: [x * f for x in vv] for k, vv in pr["bc"].items()}
-                    cmds += obj_cmds(4, q) + [{"op": "note", "what": "xform", "kind": "scale", "a": 1, "b": 4, "f": gen.hx(f)}]
+                    cmds += obj_cmds(4, q, HOWS[(kk + 3) % 4]) + [{"op": "note", "what": "xform", "kind": "scale", "a": 1, "b": 4, "f": gen.hx(f)}]
                     # scale time (stay inside W: keep the geometric mean within [0.11, 9])
                     f = r.choice([2.0, 0.5, 3.0, 1.0 / 3.0] if small else [2.0, 0.5])
                     if not (0.11 <= gm * f <= 9.0):
                         f = 1.0 / f
                     q = dict(pr); q["T"] = [t * f for t in pr["T"]]
                     q["bc"] = {k: [x / f ** {"v": 1, "a": 2, "j": 3}[k[1]] for x in vv] for k, vv in pr["bc"].items()}
-                    cmds += obj_cmds(5, q) + [{"op": "note", "what": "xform", "kind": "tscale", "a": 1, "b": 5, "f": gen.hx(f)}]
+                    cmds += obj_cmds(5, q, HOWS[kk % 4]) + [{"op": "note", "what": "xform", "kind": "tscale", "a": 1, "b": 5, "f": gen.hx(f)}]
                     # scale time by large powers of two, far outside W (minutes, hours, milliseconds): the relation is exact in floating
                     # point for a scale-covariant solver; absolute thresholds on durations or determinants show up here
                     for oid, f in ((7, r.choice([2.0 ** 6, 2.0 ** 9, 2.0 ** 11, 2.0 ** 14])), (8, r.choice([2.0 ** -5, 2.0 ** -7, 2.0 ** -9]))):
                         q = dict(pr); q["T"] = [t * f for t in pr["T"]]
                         q["bc"] = {k: [x / f ** {"v": 1, "a": 2, "j": 3}[k[1]] for x in vv] for k, vv in pr["bc"].items()}
-                        cmds += obj_cmds(oid, q) + [{"op": "note", "what": "xform", "kind": "tscale", "a": 1, "b": oid, "f": gen.hx(f)}]
+                        cmds += obj_cmds(oid, q, HOWS[(kk + oid) % 4]) + [{"op": "note", "what": "xform", "kind": "tscale", "a": 1, "b": oid, "f": gen.hx(f)}]
                     # reverse
                     q = dict(pr); q["T"] = pr["T"][::-1]; q["P"] = pr["P"][::-1]
                     sg = {"v": -1.0, "a": 1.0, "j": -1.0}
                     q["bc"] = {("s" if k[0] == "e" else "e") + k[1]: [sg[k[1]] * x for x in vv] for k, vv in pr["bc"].items()}
-                    cmds += obj_cmds(6, q) + [{"op": "note", "what": "xform", "kind": "reverse", "a": 1, "b": 6}]
+                    cmds += obj_cmds(6, q, HOWS[(kk + 1) % 4]) + [{"op": "note", "what": "xform", "kind": "reverse", "a": 1, "b": 6}]
                     execs.append((n * dim * (order + 1) * 6, cmds))
     batches = balanced(execs, 32 if ctx.quick() else 96)
     env = {"VJ_MIN": "1", "VJ_GRAD": "1"}
